@@ -23,7 +23,7 @@ EXHAUSTIVE = {"quick": False, "thorough": False}
 SO = {"threads": 1, "time_limit": 20}
 
 FLOWCLS = W.FD + W.ERR
-KINDS = ["non_string_nodes", "cyclic_for_dag", "no_source", "no_sink", "negative_weight", "missing_weight", "non_conserving", "constraint_absent_edge",
+KINDS = ["non_string_nodes", "one_isolated_non_string_node", "cyclic_for_dag", "no_source", "no_sink", "negative_weight", "missing_weight", "non_conserving", "constraint_absent_edge",
          "constraint_not_list", "constraint_entry_none", "constraint_entry_number", "constraint_mixed_node_string", "nonfinite_weight", "coverage_invalid_without_constraints", "coverage_length_invalid_without_constraints", "start_or_end_is_an_edge_tuple", "slightly_non_conserving", "non_conserving_zero_side", "constraint_empty", "constraint_not_tuples", "constraint_edge_as_list", "k_zero_superset", "k_negative_superset", "superset_negative_entry", "superset_fractional_entry_for_int", "coverage_zero", "coverage_negative", "coverage_above_one", "coverage_nan",
          "coverage_above_one_with_length", "coverage_nan_with_length", "coverage_inf_with_length", "coverage_length_zero", "coverage_length_above_one", "coverage_length_nan", "coverage_length_without_attr", "k_zero", "k_negative",
          "weight_type_str", "weight_type_complex", "weight_type_bool", "weight_type_subclass", "origin_unknown", "unknown_start", "unknown_end", "scale_above_one", "scale_negative", "scale_nan", "ignore_malformed",
@@ -91,6 +91,8 @@ def mutate(kind, cls, inst, meta, rng):
         kw.pop("elements_to_ignore_percentile", None)
     if kind == "non_string_nodes":
         special = "int_nodes"
+    elif kind == "one_isolated_non_string_node":
+        special = "iso_nonstring"
     elif kind == "cyclic_for_dag":
         u, v, d = sp["edges"][0]
         sp["edges"].append([v, u, dict(d)])
@@ -313,6 +315,10 @@ def construct_special(inst):
         for key in ("additional_starts", "additional_ends"):
             if key in kw:
                 kw[key] = [mp[x] for x in kw[key]]
+    if special == "iso_nonstring":
+        # every node has to be a string - also one that no edge touches (it is a node of the graph, and a source and a sink at once)
+        h_ = int(hashlib.sha1(repr(sp["edges"]).encode()).hexdigest(), 16)
+        G.add_node([7, 2.5, ("a", 1), 0][h_ % 4], **({"flow": 1} if inst["kw"].get("flow_attr_origin") == "node" else {}))
     if special == "raw_constraints":
         key = "subset_constraints" if inst["cls"].endswith("Cycles") else "subpath_constraints"
         kw[key] = [[(sp["edges"][0][0], sp["edges"][0][1])], "notalist"]
